@@ -602,12 +602,30 @@ func (r *rec) walk(corpus []string, depth int) {
 			r.tree(b, 2)
 		case 3:
 			// long game first: the hash history grows past its initial capacity, clocks get large
-			for i, n := 0, 90+r.rng.Intn(80); i < n && !r.full(); i++ {
+			// every other time strictly reversible moves and long enough for the clock to pass 127 (it is kept in 8 bits)
+			strict := r.rng.Intn(2) == 0
+			n := 90 + r.rng.Intn(80)
+			if strict {
+				n = 135 + r.rng.Intn(60)
+			}
+			for i := 0; i < n && !r.full(); i++ {
 				lm := proj.Playable(b, r.ms)
 				if len(lm) == 0 {
 					break
 				}
-				r.make(b, r.pickQuiet(b, lm), true)
+				m := r.pickQuiet(b, lm)
+				if strict {
+					var quiet []move.Move
+					for _, x := range lm {
+						if b.SquaresToPiece[x.To()] == NoPiece && b.SquaresToPiece[x.From()] != Pawn {
+							quiet = append(quiet, x)
+						}
+					}
+					if len(quiet) > 0 {
+						m = quiet[r.rng.Intn(len(quiet))]
+					}
+				}
+				r.make(b, m, true)
 			}
 			r.randomWalk(b, depth)
 		default:
